@@ -117,7 +117,9 @@ def run(ctx):
         if e.get("status") == "open":
             ctx.known(e["id"], e["what"])
     judge(ctx, CORPUS, "C01 corpus")
-    for fam, fsrcs in families.all_families().items():
+    fams = dict(families.all_families())
+    fams["tour_vm_only"] = families.tour_vm_only()
+    for fam, fsrcs in fams.items():
         for i in range(0, len(fsrcs), 1500):
             judge(ctx, fsrcs[i:i + 1500], f"C01 family {fam}")
         ctx.coverage[f"family_{fam}"] = len(fsrcs)
